@@ -1,6 +1,7 @@
 package main
 
 import (
+	"fmt"
 	"go/token"
 	"go/types"
 	"sort"
@@ -385,6 +386,63 @@ func checkC18(e *Engine, r *Report) {
 			}
 		}
 		r.Check(okI, "InitGenesis › writes code hash, code and storage of every account", e.Pos(ini.Pos()), "SetCodeHash / SetCode / SetState in the account loop", "InitGenesis does not restore one of code hash, code, storage")
+		// import is verbatim: InitGenesis writes through the keeper exactly the records of the genesis state — the writer calls are
+		// a frozen, hand-confirmed table per module (a new writer such as SetBaseFee stores something ExportGenesis never produced),
+		// and the parameters are stored as given (no value computed on the way)
+		for _, mod := range []struct {
+			pkg, keeper string
+			writers     []string
+		}{
+			{EV + "/x/feemarket", pkgFmKeeper, []string{"SetParams"}},
+			{EV + "/x/evm", pkgEvmKeeper, []string{"SetCode", "SetCodeHash", "SetParams", "SetState", "WithChainID"}},
+		} {
+			f := e.Fn(mod.pkg, "InitGenesis")
+			reg := e.privateRegion(f)
+			got := map[string]bool{}
+			okParams := false
+			for _, c := range reg.Calls(func(c ssa.CallInstruction) bool {
+				fo := calleeObj(c)
+				return fo != nil && fo.Pkg() != nil && fo.Pkg().Path() == mod.keeper && recvNamed(fo) != nil && recvNamed(fo).Obj().Name() == "Keeper"
+			}) {
+				nm := calleeObj(c).Name()
+				isWriter := false
+				for _, pre := range []string{"Set", "Delete", "Remove", "With", "Add", "Increase", "Reset", "Init", "Store", "Save", "Update"} {
+					if strings.HasPrefix(nm, pre) {
+						isWriter = true
+					}
+				}
+				if !isWriter {
+					continue
+				}
+				got[nm] = true
+				if nm == "SetParams" {
+					a := c.Common().Args
+					sl := backSlice(a[len(a)-1], SliceOpts{})
+					verbatim := hasFieldLoad(sl, "GenesisState", "Params") && !sl.Has(func(v ssa.Value) bool { _, isCall := v.(*ssa.Call); return isCall })
+					okParams = verbatim
+				}
+			}
+			var extra, missing []string
+			want := map[string]bool{}
+			for _, w := range mod.writers {
+				want[w] = true
+				if !got[w] {
+					missing = append(missing, w)
+				}
+			}
+			for g := range got {
+				if !want[g] {
+					extra = append(extra, g)
+				}
+			}
+			sort.Strings(extra)
+			r.Check(len(extra) == 0 && len(missing) == 0 && okParams, shortPkg(mod.pkg)+".InitGenesis › imports the genesis state verbatim", e.Pos(f.Pos()), "keeper writers: "+strings.Join(mod.writers, ", ")+"; SetParams(ctx, data.Params) as given", "InitGenesis does not store exactly what the genesis state holds (unexpected writer calls: ["+strings.Join(extra, ", ")+"], missing: ["+strings.Join(missing, ", ")+"], parameters stored verbatim: "+fmt.Sprint(okParams)+"): importing an export does not reproduce the exported state, and a second export differs from the first")
+		}
+		// the iteration helpers export/import are built on hand over every entry
+		{
+			chk, probs := iterationHelpersComplete(e)
+			r.Check(len(probs) == 0 && len(chk) >= 2, "keeper iteration helpers › every entry reaches the callback", e.Pos(exp.Pos()), strings.Join(chk, ", "), "a store-iteration helper filters entries before its callback: "+strings.Join(probs, "; ")+" — what it skips is neither exported nor deleted")
+		}
 		// import completeness: an iteration over a genesis collection handles its whole record on every path that completes
 		for _, mod := range []struct{ pkg, fn string }{{EV + "/x/evm", "InitGenesis"}, {EV + "/x/cpc", "InitGenesis"}, {EV + "/x/feemarket", "InitGenesis"}} {
 			f := e.TryFn(mod.pkg, mod.fn)
@@ -551,4 +609,93 @@ func loopPos(l *Loop) token.Pos {
 		}
 	}
 	return best
+}
+
+// iterationHelpersComplete (shared by C18-R2 and C15-R5): the keeper helpers that walk a store prefix and hand every entry to a
+// callback parameter (ForEachStorage, IterateContracts, …) must hand over EVERY entry: in each loop that calls the callback,
+// every iteration that completes (reaches the loop header again) has passed the callback call — no `continue` filter in
+// front of it. Export, account destruction and the emptiness test are built on these helpers; an entry they skip is an entry
+// that is not exported / not deleted / not seen.
+func iterationHelpersComplete(e *Engine) (checked []string, problems []string) {
+	for _, f := range e.SrcFuncs(func(p string) bool { return p == pkgEvmKeeper || p == pkgCpcKeeper || p == pkgVauthKeeper }) {
+		if f.Parent() != nil || IsGenerated(e.File(f.Pos())) {
+			continue
+		}
+		var cbs []*ssa.Parameter
+		for _, p := range f.Params {
+			if _, isSig := p.Type().Underlying().(*types.Signature); isSig {
+				cbs = append(cbs, p)
+			}
+		}
+		if len(cbs) == 0 {
+			continue
+		}
+		isCb := func(c ssa.CallInstruction) bool {
+			for _, p := range cbs {
+				if c.Common().Value == ssa.Value(p) {
+					return true
+				}
+			}
+			return false
+		}
+		for _, l := range loopsOf(f) {
+			var cbCalls []ssa.CallInstruction
+			iterates := false
+			for b := range l.Body {
+				for _, in := range b.Instrs {
+					c, ok := in.(ssa.CallInstruction)
+					if !ok {
+						continue
+					}
+					if isCb(c) {
+						cbCalls = append(cbCalls, c)
+					}
+					if c.Common().IsInvoke() && c.Common().Method.Name() == "Next" {
+						iterates = true
+					}
+				}
+			}
+			if !iterates {
+				continue
+			}
+			checked = append(checked, fnKey(f))
+			if len(cbCalls) == 0 {
+				problems = append(problems, fnKey(f)+": the iteration loop never calls the callback")
+				continue
+			}
+			cbBlocks := map[*ssa.BasicBlock]bool{}
+			for _, c := range cbCalls {
+				cbBlocks[c.Block()] = true
+			}
+			// from the body entries, can the header be reached again without entering a callback block?
+			seen := map[*ssa.BasicBlock]bool{}
+			var work []*ssa.BasicBlock
+			for _, s := range l.Header.Succs {
+				if l.Body[s] && s != l.Header {
+					work = append(work, s)
+				}
+			}
+			skipped := false
+			for len(work) > 0 {
+				b := work[len(work)-1]
+				work = work[:len(work)-1]
+				if seen[b] || !l.Body[b] || cbBlocks[b] {
+					continue
+				}
+				if b == l.Header {
+					skipped = true
+					break
+				}
+				seen[b] = true
+				work = append(work, b.Succs...)
+			}
+			// the iterator's Next() usually sits in its own block (for-post); reaching it without a callback block is the skip
+			if skipped {
+				problems = append(problems, fnKey(f)+" ("+e.Pos(loopPos(l))+"): an iteration can complete without handing the entry to the callback (a filter/`continue` in front of the callback)")
+			}
+		}
+	}
+	sort.Strings(checked)
+	sort.Strings(problems)
+	return
 }
